@@ -93,6 +93,21 @@ func (c *Ctx) c12Cleanup() {
 		breach := ov["heapInUseOverflow"] || ov["sysOverflow"] || ov["countOverflow"] || needed == triTrue
 		if len(evicts) == 0 {
 			nNo++
+			// converse: an established breach (or EvictionNeeded()==true) must reach the evictor when one is installed
+			evictInstalled := triUnknown
+			for _, ev := range p.Events {
+				if ev.Kind == pw.EvFieldRead && ev.Field != nil && ev.Field.Name() == "Evict" {
+					switch nilTri(p, ev.Value) {
+					case triTrue:
+						evictInstalled = triFalse
+					case triFalse:
+						evictInstalled = triTrue
+					}
+				}
+			}
+			if breach && evictInstalled != triFalse {
+				r.Bad("R12.1", "Trait.invokeCleanup", "breach-without-eviction", c.Pos(p.RetPos), "a soft limit is established as exceeded (or EvictionNeeded() returned true) but the cycle does not evict", shortTrace(p))
+			}
 			continue
 		}
 		nEvict++
@@ -201,6 +216,22 @@ func (c *Ctx) c12Cleanup() {
 				continue
 			}
 			nT++
+			if h.limit != "CountSoftLimit" {
+				read := false
+				for _, ev := range p.Events {
+					if ev.Kind == pw.EvCall && ev.Role == "Std:runtime.ReadMemStats" {
+						read = true
+					}
+					if ev.Kind == pw.EvFieldRead && ev.Field != nil && (ev.Field.Name() == "HeapInuse" || ev.Field.Name() == "Sys" || ev.Field.Name() == "HeapAlloc") && !read {
+						r.Bad("R12.1", h.fn, "stale-memstats", c.Pos(ev.Pos), "memory statistics are read without runtime.ReadMemStats having filled them", shortTrace(p))
+						bad = true
+					}
+				}
+				if !read {
+					r.Bad("R12.1", h.fn, "no-memstats", c.Pos(p.RetPos), "overflow is decided without reading the runtime's memory statistics", shortTrace(p))
+					bad = true
+				}
+			}
 			var lim *pw.Val
 			for _, ev := range p.Events {
 				if ev.Kind == pw.EvFieldRead && ev.Field != nil && ev.Field.Name() == h.limit {
@@ -360,7 +391,43 @@ func (c *Ctx) c12EvictLeast(b BK) {
 	}
 	nDel := 0
 	badAmt, badPrefix := false, false
+	nCollect := 0
 	for _, p := range run.paths {
+		// collection: every iterated entry contributes exactly one record (metric + key) and the scan is not cut short
+		for _, g := range iterations(p) {
+			if !g.overData || !g.inner || g.begin.Frame == nil || !g.begin.Frame.InFunc("cache."+b.Name+".evictLeast") || g.begin.Frame.InFunc("cache."+b.Name+".Len") {
+				continue
+			}
+			apps := 0
+			for _, ev := range g.events {
+				if ev.Kind == pw.EvAssign && ev.Value != nil && ev.Value.Kind == pw.KAppend && len(ev.Value.Elems) == 1 {
+					apps++
+				}
+				if ev.Kind == pw.EvExit && ev.FnLit != nil && len(ev.Results) == 1 && ev.Frame != nil && ev.Frame.Lit == g.begin.FnLit {
+					// handled below
+				}
+			}
+			nCollect++
+			if apps != 1 {
+				r.Bad("R12.3", op, "collection-incomplete", c.Pos(g.begin.Pos), fmt.Sprintf("an iterated entry contributes %d records to the eviction candidates, expected one", apps), shortTrace(p))
+				badPrefix = true
+			}
+		}
+		for _, ev := range p.Events {
+			if ev.Kind == pw.EvLoopEnd && ev.Note == "break" {
+				r.Bad("R12.3", op, "collection-stops-early", c.Pos(ev.Pos), "a loop of evictLeast is left early", shortTrace(p))
+				badPrefix = true
+			}
+			if ev.Kind == pw.EvExit && ev.FnLit != nil && len(ev.Results) == 1 && ev.Results[0].Type != nil {
+				if bt, ok := ev.Results[0].Type.Underlying().(*types.Basic); ok && bt.Kind() == types.Bool || ev.Results[0].Kind == pw.KConst {
+					if t, known := p.Truth(ev.Results[0]); known && !t && ev.Frame != nil && ev.Frame.Parent != nil && ev.Frame.Parent.Lit == nil {
+						// a Range callback returning false stops the scan; the sort comparator lives in a non-walked closure
+						r.Bad("R12.3", op, "collection-stops-early", c.Pos(ev.Pos), "the sync.Map.Range callback collecting eviction candidates returns false: the scan stops after the first entry", shortTrace(p))
+						badPrefix = true
+					}
+				}
+			}
+		}
 		// evictItems: the returned value
 		ret := p.Ret[0]
 		var lenV *pw.Val
@@ -423,6 +490,9 @@ func (c *Ctx) c12EvictLeast(b BK) {
 				}
 			}
 		}
+	}
+	if nCollect == 0 {
+		r.Unknown("R12.3", op+":collection", "no collecting iteration over the stored entries found")
 	}
 	if !badAmt {
 		r.OK("R12.2", op, "evictItems = int(len(entries)·fraction)")
@@ -545,6 +615,40 @@ func (c *Ctx) c12Wiring(b BK) {
 		}
 		if want != evict.Obj.Name() {
 			r.Bad("R12.3", ctor, "strategy-wiring", c.Pos(p.RetPos), fmt.Sprintf("strategy relation to EvictMostExpired is %s but the evictor is %s", relSetStr(rel), evict.Obj.Name()), shortTrace(p))
+			bad = true
+		}
+	}
+	// the option closure installs this backend's own callbacks on the Trait
+	fd, _ := c.funcDecl(ctor)
+	want := map[string]string{"DeleteExpired": "deleteExpired", "Len": "Len", "Evict": "evict"}
+	got := map[string]string{}
+	if fd != nil {
+		ast.Inspect(fd.Body, func(x ast.Node) bool {
+			as, ok := x.(*ast.AssignStmt)
+			if !ok || len(as.Lhs) != 1 || len(as.Rhs) != 1 {
+				return true
+			}
+			sel, ok := as.Lhs[0].(*ast.SelectorExpr)
+			if !ok {
+				return true
+			}
+			if s := c.Pkg.TypesInfo.Selections[sel]; s == nil || namedTypeName(s.Recv()) != "Trait" {
+				return true
+			}
+			switch rhs := ast.Unparen(as.Rhs[0]).(type) {
+			case *ast.SelectorExpr:
+				if s := c.Pkg.TypesInfo.Selections[rhs]; s != nil && s.Kind() == types.MethodVal && (namedTypeName(s.Recv()) == b.Name || namedTypeName(s.Recv()) == b.Wrapper) {
+					got[sel.Sel.Name] = rhs.Sel.Name
+				}
+			case *ast.Ident:
+				got[sel.Sel.Name] = rhs.Name
+			}
+			return true
+		})
+	}
+	for f, w := range want {
+		if got[f] != w {
+			r.Bad("R12.3", ctor, "callback-wiring:"+f, c.Pos(fd.Pos()), fmt.Sprintf("the constructor does not install this backend's %s as Trait.%s (cleanup / count limit / eviction would silently not run)", w, f), nil)
 			bad = true
 		}
 	}
